@@ -77,6 +77,12 @@ Theorem C20_model_agrees_implies_property_partial : forall c,
 Proof. exact model_implies_spec_partial. Qed.
 Print Assumptions C20_model_agrees_implies_property_partial.
 
+(* ... and with the model of the repaired genotype encoding (fix1_applied = true, the current setting) the link
+   holds for EVERY case of all four kinds: model agrees => property holds on that case *)
+Theorem C20_model_agrees_implies_property : forall c, model_ok c = true -> spec_ok c = true.
+Proof. exact model_implies_spec_full. Qed.
+Print Assumptions C20_model_agrees_implies_property.
+
 (* history: with the model of the unrepaired code the exclusion was necessary *)
 Theorem C20_model_agrees_implies_property_refuted :
   fix1_applied = false -> exists c, k_site c = 14%Z /\ model_ok c = true /\ spec_ok c = false.
@@ -122,3 +128,13 @@ Example C20_nonvacuous_cow_argument :
   firstn 1 (s_blocks s') = s_blocks s /\ content s' (get_reg s' 0) = [[48; 47; 49; 9]%Z]
   /\ unchanged_b 1 s s' = false.
 Proof. vm_compute. repeat split; reflexivity. Qed.
+
+(* 4. the full link is not vacuous: a genotype-encoding call on a view-shaped argument (the model flattens it into a
+      private copy) on which the model agrees with an implementation that left everything unchanged *)
+Example C20_nonvacuous_link :
+  let c := {| k_kind := 0; k_site := 14; k_cow := true; k_target := 0;
+              k_before := [[48; 47; 49; 10]%Z]; k_after := [[48; 47; 49; 10]%Z];
+              k_log_before := [1%Z]; k_log_after := [1%Z]; k_res1 := [7%Z]; k_res2 := [7%Z];
+              k_w_ref := []; k_w_got := []; k_np := 0%Z; k_prog := []; k_flags := [] |} in
+  model_ok c = true /\ spec_ok c = true.
+Proof. vm_compute. split; reflexivity. Qed.
